@@ -272,6 +272,7 @@ class Rom2:
                 secs.append(s)
                 off = noff
             info["cert"] = cb
+            info["cert_raw"] = bytes(f[ocb : ocb + cb["size"]])
             info["mac_total"] = total_mac
         else:
             if hm(mac, f[:96]) != f[96:128]:
